@@ -61,6 +61,7 @@ class Interp:
         for name, spec in program.get('objs', {}).items():
             ctx.objs[name] = make_obj(spec)
         self.scope_stack = {}     # activity -> list of (scope name, scope)
+        self.children_of = {}     # scope name -> activities accepted by scope.do
         self.coros = []           # every coroutine we created, closed explicitly afterwards
 
     # -- expressions ---------------------------------------------------------------------------
@@ -278,12 +279,18 @@ class Interp:
                 ctx.rec('scope-enter', act, pc, name)
                 try:
                     await self.block(act, body, pc)
+                except BaseException as e:
+                    ctx.rec('scope-body-exc', act, pc, (name, e))
+                    raise
                 finally:
                     ctx.rec('scope-body-end', act, pc, name)
         finally:
             if stack and stack[-1][0] == name:
                 stack.pop()
             ctx.rec('scope-left', act, pc, name)
+            # public state of every task that was accepted into this scope, read at the moment the block is left
+            ctx.rec('scope-children', act, pc, (name, {c: ctx.tasks[c].status.name
+                                                       for c in self.children_of.get(name, ())}))
 
     async def op_SCOPE(self, act, pc, name, body):
         await self._scope(act, pc, name, Scope(), body)
@@ -308,6 +315,8 @@ class Interp:
             kw['volatile'] = True
         coro = self.activity(child, script)
         task = scope.do(coro, **kw)
+        sname = opts.get('scope') or self.scope_stack[act][-1][0]
+        self.children_of.setdefault(sname, []).append(child)
         self.ctx.tasks[child] = task
         self.ctx.names[id(task.__runner__)] = child
         self.ctx.keep.append(task.__runner__)
@@ -374,6 +383,13 @@ class Interp:
         except (Exception, Concurrent) as e:
             self.ctx.rec('caught', act, pc, e)
             return e
+
+    async def op_FINALLY(self, act, pc, body, cleanup):
+        """try: body  finally: cleanup  (cleanup must not suspend when the activity is being closed)"""
+        try:
+            await self.block(act, body, pc + ('t',))
+        finally:
+            await self.block(act, cleanup, pc + ('f',))
 
     async def op_PROBE(self, act, pc, what, arg=None):
         o = self.ctx.objs
